@@ -25,7 +25,34 @@ type scriptCase struct {
 	Abort      bool   `json:"abort,omitempty"`
 	NoOptimize bool   `json:"no_optimize,omitempty"`
 	Enc        bool   `json:"enc,omitempty"` // target of encode actions (baseline encoding taken before any run)
+	// NilGlobals: the script is run with Run(nil, args...): the VM makes a globals map of its own for the run
+	NilGlobals bool `json:"nil_globals,omitempty"`
 	prog.Case
+}
+
+// tNilGlobals: scripts run without a globals object that read a global before writing it, count in it,
+// and leave values behind: a later run without globals (of this or another script using the same
+// names) must start from undefined again.
+func tNilGlobals(rt *rapid.T) scriptCase {
+	name := []string{"ng", "ng", "counter"}[gen.Uniform(rt, 3, "ngname")]
+	var sb strings.Builder
+	fmt.Fprintf(&sb, "global (%s, other)\n", name)
+	fmt.Fprintf(&sb, "seen := [%s, other]\n", name)
+	switch gen.Uniform(rt, 3, "ngform") {
+	case 0:
+		fmt.Fprintf(&sb, "%s = (%s == undefined) ? 1 : %s + 1\n", name, name, name)
+	case 1:
+		fmt.Fprintf(&sb, "%s = {k: seen}\nother = \"left behind\"\n", name)
+	default:
+		fmt.Fprintf(&sb, "f := func() { %s = [%s]; return %s }\nf()\n", name, name, name)
+	}
+	tag := "returns"
+	if gen.Uniform(rt, 3, "ngfail") == 0 {
+		tag = "fails"
+		fmt.Fprintf(&sb, "throw error(string(seen))\n")
+	}
+	fmt.Fprintf(&sb, "return [seen, %s, other]\n", name)
+	return scriptCase{Kind: "nilglobals", Tag: tag, NilGlobals: true, Case: prog.Case{Src: sb.String()}}
 }
 
 // ---------------------------------------------------------------- environment
@@ -419,6 +446,9 @@ func drawPool(rt *rapid.T) []scriptCase {
 			pool = append(pool, tInvoker(rt))
 		}
 	}
+	// two scripts run without a globals object (they share names)
+	pool[len(pool)-1] = tNilGlobals(rt)
+	pool[len(pool)-2] = tNilGlobals(rt)
 	for i := range pool {
 		pool[i].Enc = gen.Uniform(rt, 3, "enc") == 0
 	}
